@@ -1,7 +1,7 @@
 """C20 -- configuration objects and textual settings (structural part)."""
 import re
 
-from abtverif import canon, cfg, seq, terms
+from abtverif import canon, cfg, seq
 from abtverif.seq import idx, is_call, show, has_if
 from . import common
 
@@ -79,6 +79,43 @@ def rule_R1(P, rep):
         rep.ob("R1", "%s is reached only through the clamping loaders" % parser, ok, str(cs), loc="src/util/atoi.c", site="parser-callers/" + parser)
 
 
+def _defs_of(F, ref_node):
+    """Right-hand sides of the assignments of the local read at `ref_node` that reach it (reaching
+    definitions over the CFG), or None when one of them is not a plain `x = expr`."""
+    name = F.nodes[ref_node]["n"]
+    d = canon.reaching_def(F, name, ref_node)
+    if isinstance(d, int):
+        return [d]
+    return canon.reaching_defs(F, name, ref_node)
+
+
+def _through(P, F, i, rf, depth=6):
+    """Is the value of expression i, on every path, the result of a call of `rf`?  Locals are followed
+    through their reaching definitions (whatever they are called), `c ? a : b` through both arms and the
+    ABTD_env_* getter functions of abtd_env.c through every return statement."""
+    i = F.strip(i)
+    if i is None or i < 0 or depth < 0:
+        return False
+    nd = F.nodes[i]
+    k = nd.get("k")
+    if k == "call":
+        fn = nd.get("fn")
+        if fn == rf:
+            return True
+        if fn and fn.startswith("ABTD_env_"):
+            G = P.fn(fn, ENV, required=False)
+            if G is not None:
+                rets = [G.nodes[j]["e"] for _b, j in G.all_events() if G.nodes[j].get("k") == "ret" and "e" in G.nodes[j]]
+                return bool(rets) and all(_through(P, G, e, rf, depth - 1) for e in rets)
+        return False
+    if k == "cond":
+        return _through(P, F, nd["th"], rf, depth - 1) and _through(P, F, nd["el"], rf, depth - 1)
+    if k == "ref" and nd.get("dk") == "var":
+        ds = _defs_of(F, i)
+        return bool(ds) and all(_through(P, F, d, rf, depth - 1) for d in ds)
+    return False
+
+
 def rule_R2(P, rep):
     table = {"key_table_size": "roundup_pow2_uint32", "sys_page_size": "roundup_pow2_size", "mem_page_size": "roundup_pow2_size",
              "thread_stacksize": "ABTU_roundup_size", "sched_stacksize": "ABTU_roundup_size", "mem_sp_size": "ABTU_roundup_size",
@@ -88,21 +125,131 @@ def rule_R2(P, rep):
     for b, i, lh, rh in F.stores():
         fo = F.field_of(lh)
         if fo and fo[0] == "ABTI_global" and fo[1] in table and rh is not None:
-            txt = terms.expand(F, rh)
-            # follow one level of getter functions
-            for m in re.findall(r"(ABTD_env_\w+)\(", txt):
-                G = P.fn(m, ENV, required=False)
-                if G is not None:
-                    for b2, j in G.all_events():
-                        if G.nodes[j].get("k") == "ret" and "e" in G.nodes[j]:
-                            txt += " <- " + terms.expand(G, G.nodes[j]["e"])
-            got[fo[1]] = txt
+            ok = F.nodes[i].get("op") == "=" and _through(P, F, rh, table[fo[1]])
+            prev = got.get(fo[1])
+            got[fo[1]] = (ok and (prev is None or prev[0]), canon.expr(F, rh, depth=4))
     have = {f["n"] for f in P.record("ABTI_global").get("fields", [])}
     for field, rf in sorted(table.items()):
         if field.startswith("mem_") and field not in have and P.variant == "no_mem_pool":
             continue  # the memory-pool settings do not exist when the pool is configured out
-        rep.ob("R2", "ABTI_global::%s is assigned through %s" % (field, rf), field in got and (rf + "(") in got[field],
-               "assigned %s" % got.get(field), loc=F.file, site="rounding/" + field)
+        rep.ob("R2", "ABTI_global::%s is assigned through %s" % (field, rf), field in got and got[field][0],
+               "assigned %s" % (got.get(field) or (None, None))[1], loc=F.file, site="rounding/" + field)
+
+
+def _impl_outs(F):
+    """Names of the locals that receive atoi_impl's results (sign, 64-bit accumulator, overflow flag),
+    identified by their position in the call, not by what they are called."""
+    cs = F.calls("atoi_impl")
+    if len(cs) != 1:
+        return None
+    out = []
+    for a in F.nodes[cs[0][1]]["a"][1:4]:
+        n = F.nodes[F.strip(a)]
+        inner = F.nodes[F.strip(n["e"])] if n.get("k") == "un" and n["op"] == "&" else {}
+        if inner.get("k") != "ref":
+            return None
+        out.append(inner["n"])
+    return out if len(out) == 3 else None
+
+
+def _r3_cond(sign, val):
+    vq = re.escape(val)
+
+    def f(t):
+        """'exceeds:C' = accumulator > C (also written C < acc, !(acc <= C), acc >= C+1, ...);
+        'signed' / 'nonzero' = truth of the sign flag / of the accumulator."""
+        m = re.match(r"^(\d+) < %s$" % vq, t)
+        if m:
+            return "exceeds:%s" % m.group(1)
+        m = re.match(r"^%s < (\d+)$" % vq, t)
+        if m:
+            return ("exceeds:%d" % (int(m.group(1)) - 1), True)
+        if t == sign:
+            return "signed"
+        if t == val:
+            return "nonzero"
+        return None
+    return f
+
+
+def _gt_facts(F, node, truth, depth=3):
+    """[(big, small, holds)]: what is known about relations `big > small` / `big >= small` once condition
+    `node` evaluated to `truth`.  Independent of the way the test is written: `a < b` is `b > a`, `a <= b`
+    is `!(a > b)`; `!`, __builtin_expect and locals that only hold an earlier comparison are looked through,
+    a false `x || y` makes both operands false, a true `x && y` both true."""
+    out = []
+    i = F.strip(node)
+    if i is None or i < 0 or depth < 0:
+        return out
+    nd = F.nodes[i]
+    k = nd.get("k")
+    if k == "un" and nd["op"] == "!":
+        return _gt_facts(F, nd["e"], not truth, depth)
+    if k == "call" and nd.get("fn") in ("__builtin_expect", "ABTU_likely", "ABTU_unlikely") and nd.get("a"):
+        return _gt_facts(F, nd["a"][0], truth, depth)
+    if k == "bin" and nd["op"] in ("||", "&&"):
+        if truth == (nd["op"] == "&&"):
+            return _gt_facts(F, nd["lh"], truth, depth) + _gt_facts(F, nd["rh"], truth, depth)
+        return out
+    if k == "bin" and nd["op"] in ("!=", "==") and F.nodes[F.strip(nd["rh"])].get("cv") == 0:
+        return _gt_facts(F, nd["lh"], truth == (nd["op"] == "!="), depth)
+    if k == "cond":
+        tv, ev = F.nodes[F.strip(nd["th"])].get("cv"), F.nodes[F.strip(nd["el"])].get("cv")
+        if tv is not None and ev is not None and bool(tv) != bool(ev):
+            return _gt_facts(F, nd["c"], truth == bool(tv), depth)
+        return out
+    if k == "ref" and nd.get("dk") == "var":
+        d = canon.reaching_def(F, nd["n"], i)
+        if isinstance(d, int):
+            dn = F.nodes[F.strip(d)]
+            if dn.get("k") in ("bin", "un", "cond") and not dn.get("asg"):
+                return _gt_facts(F, d, truth, depth - 1)
+        return out
+    if k == "bin" and nd["op"] in (">", ">=", "<", "<="):
+        a, b = nd["lh"], nd["rh"]
+        if nd["op"] in ("<", "<="):
+            a, b = b, a
+        # `a > b` evaluated to `truth`; read the other way round it says `b >= a` is `not truth`
+        out.append((a, b, truth))
+        out.append((b, a, not truth))
+    return out
+
+
+def _ident(F, i, depth=3):
+    """Identity of an accumulated variable: a local that merely copies another variable stands for it."""
+    i = F.strip(i)
+    nd = F.nodes[i]
+    if nd.get("k") == "ref" and nd.get("dk") == "var" and depth > 0:
+        d = canon.reaching_def(F, nd["n"], i)
+        if isinstance(d, int) and F.nodes[F.strip(d)].get("k") == "ref":
+            return _ident(F, d, depth - 1)
+    return F.render(i)
+
+
+def _times10(F, i):
+    """Operand x of `x * 10` / `10 * x`, else None."""
+    nd = F.nodes[F.strip(i)]
+    if nd.get("k") == "bin" and nd["op"] == "*":
+        for x, c in ((nd["lh"], nd["rh"]), (nd["rh"], nd["lh"])):
+            if F.nodes[F.strip(c)].get("cv") == 10 and F.nodes[F.strip(x)].get("cv") is None:
+                return x
+    return None
+
+
+def _guard_kind(F, big, small):
+    """(variable, kind) of an overflow guard `big > small`:
+    G1  v > MAX / 10          G2  v * 10 > MAX - d          G3  v > (MAX - d) / 10"""
+    bn, sn = F.nodes[F.strip(big)], F.nodes[F.strip(small)]
+    x = _times10(F, big)
+    if sn.get("cv") is not None and sn["cv"] >= 214748364 and x is None and bn.get("cv") is None:
+        return _ident(F, big), "G1"
+    if x is not None and sn.get("k") == "bin" and sn["op"] == "-":
+        return _ident(F, x), "G2"
+    if sn.get("k") == "bin" and sn["op"] == "/" and F.nodes[F.strip(sn["rh"])].get("cv") == 10:
+        num = F.nodes[F.strip(sn["lh"])]
+        if num.get("k") == "bin" and num["op"] == "-" and bn.get("cv") is None:
+            return _ident(F, big), "G3"
+    return None
 
 
 def rule_R3_R4(P, rep):
@@ -110,17 +257,22 @@ def rule_R3_R4(P, rep):
     limits = {"ABTU_atoi": {2147483647: 2147483647, 2147483648: -2147483648}, "ABTU_atoui32": {4294967295: 4294967295}}
     for fn in ("ABTU_atoi", "ABTU_atoui32"):
         F = P.fn(fn, A)
-        sel = seq.Sel(derefs={"p_val"}, conds=lambda t: "val >" in t or t == "is_signed" or "val != 0" in t, assigns={"overflow"})
+        outs = _impl_outs(F)
+        rep.need(outs is not None, "%s: the locals receiving atoi_impl's results were not found" % fn)
+        SIGN, VAL, OVF = outs
+        OUT = F.params[1]["n"]
+        cond = _r3_cond(SIGN, VAL)
+        sel = seq.Sel(derefs={OUT}, conds=cond, assigns={OVF}, decls={OVF}, canon=True)
         n = 0
         for toks, kind, rv, rtxt in seq.sequences(F, sel):
-            st = [t for t in toks if t[0] == "dst" and t[1] == "p_val"]
+            st = [t for t in toks if t[0] == "dst" and t[1] == OUT]
             if kind != "ret" or not st:
                 continue
             n += 1
             why = []
             v = st[-1][2]
-            cmps = [t for t in toks if t[0] == "if" and "val >" in t[1]]
-            ov = [t for t in toks if t[0] == "decl" and t[1] == "overflow"]
+            cmps = [t for t in toks if t[0] == "if" and t[1].startswith("exceeds:")]
+            ov = [t for t in toks if t[0] == "decl" and t[1] == OVF]
             if isinstance(v, int):
                 # a constant is stored: it must be the limit selected by a true comparison, with overflow raised
                 if v != 0:
@@ -129,7 +281,7 @@ def rule_R3_R4(P, rep):
                     if not ov or ov[-1][2] != "1":
                         why.append("saturates without raising the overflow flag")
             else:
-                if "val" in str(v) and (not cmps or cmps[-1][2]):
+                if re.search(r"\b%s\b" % re.escape(VAL), str(v)) and (not cmps or cmps[-1][2]):
                     why.append("narrows the 64-bit accumulator (%s) without a passed range test" % v)
             rep.ob("R3", "%s path [%s]" % (fn, show(toks)[:160]), not why, "; ".join(why), loc="%s:%d" % (F.file, F.line),
                    site="%s/%s" % (fn, show(toks)[:120]))
@@ -137,9 +289,11 @@ def rule_R3_R4(P, rep):
         # the compared constants are the limits of the target type
         consts = set()
         for B in F.blocks.values():
-            if B.tc is not None and "val >" in F.render(B.tc):
-                c = F.nodes[cfg.cond_atom(F, B.tc)[0]]
-                consts.add(F.nodes[F.strip(c["rh"])].get("cv"))
+            if B.tc is not None:
+                r = cond(canon.cond(F, cfg.cond_atom(F, B.tc)[0])[0])
+                lab = r[0] if isinstance(r, tuple) else r
+                if lab and lab.startswith("exceeds:"):
+                    consts.add(int(lab[8:]))
         rep.ob("R3", "%s compares with the limits of its result type" % fn, consts == set(limits[fn]), "compares with %s" % sorted(consts, key=str),
                loc=F.file, site="%s/limits" % fn)
     # R4: every digit accumulation in the library
@@ -147,14 +301,15 @@ def rule_R3_R4(P, rep):
     for F in sorted(P.functions.values(), key=lambda f: (f.file, f.line)):
         accs = []
         for b, i, lh, rh in F.stores():
-            if rh is None:
+            if rh is None or F.nodes[i].get("op") != "=":
                 continue
             rn = F.nodes[F.strip(rh)]
             if rn.get("k") == "bin" and rn["op"] == "+":
-                mul = F.nodes[F.strip(rn["lh"])]
-                if mul.get("k") == "bin" and mul["op"] == "*" and F.nodes[F.strip(mul["rh"])].get("cv") == 10 and \
-                        F.render(mul["lh"]) == F.render(lh):
-                    accs.append((i, F.render(lh), rn["rh"]))
+                for m, d in ((rn["lh"], rn["rh"]), (rn["rh"], rn["lh"])):
+                    x = _times10(F, m)
+                    if x is not None and _ident(F, x) == _ident(F, lh):
+                        accs.append((i, _ident(F, lh), d))
+                        break
         if not accs:
             continue
 
@@ -169,21 +324,11 @@ def rule_R3_R4(P, rep):
             def edge(self, F, bid, key, truth, st, ctx):
                 if ctx.cond_node is None:
                     return st
-                cn = F.nodes[ctx.cond_node]
-                if cn.get("k") == "bin" and cn["op"] in (">", ">="):
-                    lhs = F.render(cn["lh"])
-                    rhs_txt = F.render(cn["rh"])
-                    rhs_cv = F.nodes[F.strip(cn["rh"])].get("cv")
-                    kind = None
-                    if rhs_cv is not None and rhs_cv >= 214748364 and "*" not in lhs:
-                        kind = "G1"            # v > MAX / 10
-                    elif "* 10" in lhs and "-" in rhs_txt:
-                        kind = "G2"            # v * 10 > MAX - d
-                    elif "/ 10" in rhs_txt and "-" in rhs_txt:
-                        kind = "G3"            # v > (MAX - d) / 10
-                    if kind:
-                        var = lhs.replace(" * 10", "")
-                        st = frozenset(x for x in st if not (x[0] == var and x[1] == kind)) | {(var, kind, bool(ctx.cond_val))}
+                for big, small, holds in _gt_facts(F, ctx.cond_node, bool(ctx.cond_val)):
+                    g = _guard_kind(F, big, small)
+                    if g:
+                        var, kind = g
+                        st = frozenset(x for x in st if not (x[0] == var and x[1] == kind)) | {(var, kind, holds)}
                 return st
 
             def event(self, F, nid, st, ctx):
@@ -201,11 +346,32 @@ def rule_R3_R4(P, rep):
         cfg.simulate(F, ts)
         for i, var, d in accs:
             n += 1
-            t = [p["t"] for p in [] ]
             rep.ob("R4", "%s: `%s` is guarded against overflow on every path" % (F.name, F.render(i)[:60]), i in ts.seen and i not in ts.bad,
                    "guards seen on an unguarded path: %s (need G3 false, or G1 and G2 both false)" % ts.bad.get(i), loc=F.loc(i),
                    site="%s/accumulate/%s" % (F.name, var))
     rep.need(n >= 2, "only %d digit accumulations found" % n)
+
+
+def _rooted(F, i, keep=(), depth=3, at=None):
+    """canon.rooted, except that the locals in `keep` (the variables the rule reasons about) stay as they
+    are: only *other* temporaries are resolved through their single reaching definition."""
+    at = i if at is None else at
+    i = F.strip(i)
+    if i is None or i < 0:
+        return ""
+    nd = F.nodes[i]
+    k = nd.get("k")
+    if k == "mem":
+        return "%s%s%s" % (_rooted(F, nd["b"], keep, depth, at), "->" if nd["arrow"] else ".", nd["f"])
+    if k == "un" and nd["op"] in ("&", "*"):
+        return nd["op"] + _rooted(F, nd["e"], keep, depth, at)
+    if k == "ref":
+        if nd.get("dk") == "var" and depth > 0 and nd["n"] not in keep:
+            d = canon.reaching_def(F, nd["n"], at)
+            if isinstance(d, int) and F.nodes[F.strip(d)].get("k") in ("ref", "un", "mem"):
+                return _rooted(F, d, keep, depth - 1, d)
+        return nd["n"]
+    return F.render(i)
 
 
 def rule_R5(P, rep):
@@ -279,10 +445,51 @@ def rule_R5(P, rep):
         ln = D.nodes[D.strip(lh)]
         if rn.get("k") == "un" and rn["op"] == "*" and D.nodes[D.strip(rn["e"])].get("n") == PP and ln.get("k") == "ref":
             curs.add(ln["n"])
+    for nd in D.nodes:      # ... or initialised from it in its declaration
+        if nd and nd.get("k") == "decl":
+            for v in nd["vars"]:
+                rn = D.nodes[D.strip(v["init"])] if v.get("init") is not None else {}
+                if rn.get("k") == "un" and rn["op"] == "*" and D.nodes[D.strip(rn["e"])].get("n") == PP:
+                    curs.add(v["n"])
     rep.need(len(curs) == 1, "hashtable_delete: cursors loaded through the link pointer: %s" % sorted(curs))
     CUR = sorted(curs)[0]
+    KEY = D.params[1]["n"]
+
+    def key_test(t, F, node):
+        lab, flip = canon.cond(F, node)
+        if lab in ("ABTU_hashtable_element::key == %s" % KEY, "%s == ABTU_hashtable_element::key" % KEY):
+            return "key-mismatch" if flip else "key-match"
+        return None
+
+    def val(t):
+        """Object-identity preserving text of the value a decl/assignment/store token writes: temporaries
+        are resolved through their reaching definition (`tmp = cur->p_next; *pp = tmp` reads `cur->p_next`)."""
+        nd = D.nodes[t[-1]]
+        if nd.get("k") == "decl":
+            init = [v.get("init") for v in nd["vars"] if v["n"] == t[1]]
+            return _rooted(D, init[0], (CUR, PP)) if init and init[0] is not None else None
+        return _rooted(D, nd["rh"], (CUR, PP)) if "rh" in nd else t[2]
+
+    def seats_link(t):
+        """Does the decl/assignment token seat the link pointer at `&X->p_next` with X the cursor, or (first
+        seat) the bucket head, i.e. a local that holds the result of get_element()?"""
+        if val(t) == "&%s->p_next" % CUR:
+            return True
+        nd = D.nodes[t[-1]]
+        rhs = ([v.get("init") for v in nd["vars"] if v["n"] == t[1]] or [None])[0] if nd.get("k") == "decl" else nd.get("rh")
+        if rhs is None:
+            return False
+        a = D.nodes[D.strip(rhs)]
+        m = D.nodes[D.strip(a["e"])] if a.get("k") == "un" and a["op"] == "&" else {}
+        if m.get("k") != "mem" or m.get("f") != "p_next" or m.get("r") != "ABTU_hashtable_element":
+            return False
+        b = D.strip(m["b"])
+        if D.nodes[b].get("k") != "ref":
+            return False
+        d = canon.reaching_def(D, D.nodes[b]["n"], b)
+        return isinstance(d, int) and D.nodes[D.strip(d)].get("k") == "call" and D.nodes[D.strip(d)].get("fn") == "get_element"
     sel = seq.Sel(assigns={CUR, PP}, decls={CUR, PP}, derefs={PP},
-                  calls={"ABTU_free"}, conds=lambda t: "key ==" in t)
+                  calls={"ABTU_free"}, conds=key_test)
     n = 0
     for toks, kind, rv, rtxt in seq.sequences(D, sel, max_repeat=3, max_len=80):
         un = [i for i, t in enumerate(toks) if t[0] == "dst" and t[1] == PP]
@@ -290,18 +497,18 @@ def rule_R5(P, rep):
             continue
         n += 1
         why = []
-        # walk the cursor updates before the unlink: each advance of p_element must re-seat pp_element first
+        # walk the cursor updates before the unlink: each advance of the cursor must re-seat the link pointer first
         for i, t in enumerate(toks[:un[0]]):
-            if t[0] == "decl" and t[1] == CUR and t[2] not in ("*" + PP,) and "get_element" not in (t[2] or ""):
-                why.append("cursor advanced with `%s = %s` without re-seating the trailing link pointer" % (CUR, t[2]))
-            if t[0] == "decl" and t[1] == CUR and t[2] == "*" + PP:
+            if t[0] == "decl" and t[1] == CUR and val(t) not in ("*" + PP,) and "get_element" not in (val(t) or ""):
+                why.append("cursor advanced with `%s = %s` without re-seating the trailing link pointer" % (CUR, val(t)))
+            if t[0] == "decl" and t[1] == CUR and val(t) == "*" + PP:
                 prev = [u for u in toks[:i] if u[0] == "decl"][-1:]
-                if not prev or prev[0][1] != PP or prev[0][2] != "&%s->p_next" % CUR:
+                if not prev or prev[0][1] != PP or not seats_link(prev[0]):
                     why.append("`%s = *%s` not immediately preceded by `%s = &%s->p_next`" % (CUR, PP, PP, CUR))
-        if toks[un[0]][2] != "%s->p_next" % CUR:
-            why.append("unlink stores %s" % toks[un[0]][2])
+        if val(toks[un[0]]) != "%s->p_next" % CUR:
+            why.append("unlink stores %s" % val(toks[un[0]]))
         fr = idx(toks, is_call("ABTU_free"))
-        if not fr or fr[0] < un[0] or toks[fr[0]][2] != ("var:" + CUR,):
+        if not fr or fr[0] < un[0] or _rooted(D, D.nodes[toks[fr[0]][-1]]["a"][0], (CUR, PP)) != CUR:
             why.append("unlinked element not freed after the unlink")
         rep.ob("R5", "hashtable_delete unlink path (%d advances)" % sum(1 for t in toks if t[0] == "decl" and t[1] == PP),
                not why, "; ".join(sorted(set(why))), loc="%s:%d" % (D.file, D.line), site="hashtable/delete/%d" % len(toks))
